@@ -771,7 +771,8 @@ class C18(Property):
                        "cell:q_obstaclexcustom-state-without-orientation", "cell:exportxdefaultdict-goal-table",
                        "cell:renderxcustom-state-without-orientation", "op-raised:goal", "op-raised:export", "render-flag:draw_intersections", "render-flag:draw_icon",
                        "render-animation-with-focus-obstacle", "feature:tiny-coordinates",
-                       "feature:scenario-id-with-several-prediction-ids", "deep-copy-worked-on-in-place"]
+                       "feature:scenario-id-with-several-prediction-ids", "deep-copy-worked-on-in-place",
+                       "feature:closed-course"]
     assumptions = [
         "the snapshot reads public accessors only and never touches derived data whose computation is itself one of "
         "the side effects hunted (occupancy_set, distance, shapely_object)",
@@ -790,10 +791,24 @@ class C18(Property):
                 "max_export": rng.pick([1, 3, 6]), "p_export_check": rng.pick([0.0, 0.15, 0.4])}
 
     def gen_universe(self, rng, cfg):
-        ids = gen.IdAlloc(rng, 1, 400)
-        net = gen.gen_network(rng, rows=rng.randint(1, 2), cols=rng.randint(1, 3), ids=ids)
+        ids = gen.IdAlloc(rng, 1, 400, zero=0.1)
+        net = gen.gen_network(rng, rows=rng.randint(1, 2), cols=rng.randint(1, 3), ids=ids, loops=0.3)
         net.pop("_geom", None)
         obstacles, features = [], set()
+        by = {la["id"]: la for la in net["lanelets"]}
+
+        def reaches_itself(start):
+            seen, todo = set(), list(by[start].get("succ", []))
+            while todo:
+                x = todo.pop()
+                if x == start:
+                    return True
+                if x in by and x not in seen:
+                    seen.add(x)
+                    todo.extend(by[x].get("succ", []))
+            return False
+        if any(reaches_itself(i) for i in by):
+            features.add("closed-course")
         for _ in range(rng.randint(1, 5)):
             role = rng.weighted(["static", "dynamic", "dynamic_nopred", "dynamic_set", "env", "phantom"],
                                 [2, 6, 1, 1.5, 1, 1])
